@@ -47,6 +47,9 @@ type provider struct {
 	unSubIn            chan topicstypes.UnSubscribeReq
 	onCleanUnsubscribe func([]string)
 	nodeSubscribers    func(sn *node, publishID uintptr, p *publishes)
+	// structure serialises everything that adds or unlinks nodes (subscribe, unsubscribe, retain).
+	// Searches do not take it: they read the maps and counters the writers publish atomically
+	structure sync.Mutex
 }
 
 var _ topicstypes.Provider = (*provider)(nil)
